@@ -436,6 +436,9 @@ def scenario_extrema(ch, tr, st):
     with_casenum = ch.flip(1, 2, "with_casenum")
     list_labels = ch.flip(1, 3, "list_labels")
     nan_ok = ch.flip(1, 3, "nan_on")
+    # tables "computed elsewhere" may be integer arrays (hand-entered values); other cases
+    # then carry half-integers so that a table that silently stays integer shows
+    int_tables = ch.flip(1, 4, "int_tables")
     cur = SimpleNamespace(ext=None, ext_x=None, maxcase=None, mincase=None)
     if with_casenum:
         cur.mx = np.zeros((rows, n))
@@ -472,8 +475,15 @@ def scenario_extrema(ch, tr, st):
         else:
             maxcase = f"c{j}"
             mincase = f"c{j}m" if cols == 2 and ch.flip(1, 3, "mincase_given") else None
-        mm = SimpleNamespace(ext=vals.copy(), ext_x=None if xs is None else xs.copy())
-        ops.append({"ext": vals.tolist(), "maxcase": maxcase, "mincase": mincase})
+        as_int = False
+        if int_tables:
+            if not np.isnan(vals).any() and ch.flip(1, 2, "int_this_case"):
+                as_int = True
+                st.fault("integer_table")
+            elif ch.flip(1, 2, "half_this_case"):
+                vals = vals + 0.5 if cols == 1 else vals + np.array([0.5, -0.5])
+        mm = SimpleNamespace(ext=vals.astype(np.int64) if as_int else vals.copy(), ext_x=None if xs is None else (xs.astype(np.int64) if as_int else xs.copy()))
+        ops.append({"ext": vals.tolist(), "maxcase": maxcase, "mincase": mincase, "int": as_int})
         with _Sut(f"cla.extrema call {j}"):
             cla.extrema(cur, mm, maxcase, mincase, j if with_casenum else None)
         hist.append((vals, xs, maxcase, mincase))
@@ -575,6 +585,7 @@ def scenario_external(ch, tr, st):
     mixed_x = ch.flip(1, 3, "mixed_x")
     list_labels = ch.flip(1, 3, "list_labels")
     nan_ok = ch.flip(1, 4, "nan_on")
+    int_tables = ch.flip(1, 4, "int_tables")
     doappend = [2, 0, 1, 3][ch.draw(4, "doappend")]
     use_merge = ch.flip(1, 2, "use_merge")
     ncat = 1 + ch.draw(2, "ncat")
@@ -618,8 +629,19 @@ def scenario_external(ch, tr, st):
             else:
                 maxcase = f"E{e}case"
                 mincase = f"E{e}casem" if cols == 2 and ch.flip(1, 3, "mincase_given") else None
+            given = vals.copy()
+            given_x = None if xs is None else xs.copy()
+            if int_tables:
+                if not np.isnan(vals).any() and ch.flip(1, 2, "int_this_event"):
+                    # "2d array_like": an integer array, or a nested list of ints
+                    given = vals.astype(np.int64) if ch.flip(1, 2, "int_as_array") else [[int(v) for v in row] for row in vals]
+                    given_x = None if xs is None else xs.astype(np.int64)
+                    st.fault("integer_table")
+                elif ch.flip(1, 2, "half_this_event"):
+                    vals = vals + 0.5 if cols == 1 else vals + np.array([0.5, -0.5])
+                    given = vals.copy()
             with _Sut("DR_Results.add_maxmin"):
-                res.add_maxmin(cat, vals.copy(), maxcase, mincase, None if xs is None else xs.copy(), domain="time" if xs is not None else None)
+                res.add_maxmin(cat, given, maxcase, mincase, given_x, domain="time" if xs is not None else None)
             low_max = [_lbl(maxcase, r) for r in range(rows)]
             low_min = [_lbl(mincase if mincase is not None else maxcase, r) for r in range(rows)]
             lab = {0: lambda l: name, 2: lambda l: name, 1: lambda l: f"{name},{l}", 3: lambda l: l}[doappend]
@@ -1795,5 +1817,5 @@ ASSUMPTIONS = [
 EXPECTED_FAULTS = [
     "psd_domain", "clock_jump_backwards", "clock_jump_forwards", "external_maxmin", "merge_rename", "mixed_abscissa", "model_varies_between_events", "zero_force_psd_row", "nan_cells", "ties", "ties_quantised", "one_column_ext", "label_mismatch", "j_out_of_order", "interleaved_events", "view_drfunc",
     "cache_reuse", "cache_reuse_repeat_uf", "stale_extreme_rebuild", "shared_DR_Event", "envelope_multi_event", "split_merge", "calc_ext",
-    "mixed_depth_tree", "merge_of_merged_results", "force_trimming", "checkpoint_saved", "crash_restart_from_checkpoint", "crash_restart_from_scratch", "crash_lost_cases_redone", "summary_copy", "summary_copy_stripped",
+    "integer_table", "mixed_depth_tree", "merge_of_merged_results", "force_trimming", "checkpoint_saved", "crash_restart_from_checkpoint", "crash_restart_from_scratch", "crash_lost_cases_redone", "summary_copy", "summary_copy_stripped",
 ]
